@@ -728,8 +728,13 @@ fn c15_run(cfg: &Config) -> PropRun {
     );
     let mut a_list = closed.into_inner().unwrap();
     // generated well-formed programs are closed prefixes too
-    for p in crate::grammar::programs(if q { 2 } else { 2 }, false) {
-        a_list.push(p);
+    for p in crate::grammar::programs(2, false) {
+        // only those that end in a consumed ';' / comment and leave the initial configuration
+        if let Outcome::Ok(r) = run_lexer(&p) {
+            if closed_prefix(&p, &r) {
+                a_list.push(p);
+            }
+        }
     }
     a_list.sort();
     a_list.dedup();
@@ -938,11 +943,82 @@ pub fn run_property(prop: &'static str, cfg: &Config) -> PropRun {
             }
         }
         "C15" => c15_run(cfg),
+        "C18" => {
+            let ex = Explorer::new(cfg.threads, cfg.cap_s, if cfg.tier == Tier::Quick { 28 } else { 33 });
+            let sp = filter_spaces(cfg, spaces::sigma_spaces(&["S1", "S2", "S3", "S9", "seeded"], cfg.tier));
+            let mut report = ex.run(
+                &sp,
+                |local: &mut Local, node: &Node| {
+                    local.lexer_runs += 1;
+                    match c18_placement(node.input) {
+                        None => {
+                            local.unobservable += 1;
+                            Visit { cfg: None, nontrivial: false }
+                        }
+                        Some((sigs, seps, cfgh)) => {
+                            for s in sigs {
+                                local.finding(format!("C18 {s}"), node.input);
+                            }
+                            local.add("macro_sep_tokens_checked", u64::from(seps));
+                            Visit { cfg: Some(cfgh), nontrivial: seps > 0 }
+                        }
+                    }
+                },
+                cfg_of,
+            );
+            report.distinct_nontrivial = ex.distinct_nontrivial.load(std::sync::atomic::Ordering::Relaxed);
+            PropRun {
+                report,
+                rule: "every word of <= N atoms of the macro alphabets (placement rule, this build) and block digests of the same enumeration under both feature configurations (driver); non-trivial = at least one MacroSep token".into(),
+                oracle: "MacroSep is zero-width, on the default channel, directly before a macro statement keyword or macro label, and the previous default-channel token exists and is not ';', a label, %then or %else; stream without MacroSep == stream of the build without the feature".into(),
+            }
+        }
         "C08" => crate::numref::run(cfg),
         "C11" => crate::ref11::run(cfg),
         "C12" | "C13" | "C14" => crate::grammar::run(prop, cfg),
         _ => panic!("unknown property {prop}"),
     }
+}
+
+/// C18 placement rule on one input: (failed clauses, number of MacroSep tokens, cfg hash)
+pub fn c18_placement(src: &str) -> Option<(Vec<String>, u32, u64)> {
+    let Outcome::Ok(r) = run_lexer(src) else { return None };
+    if r.verif.budget_exceeded {
+        return None;
+    }
+    let v = View::new(src, &r);
+    let mut out = Vec::new();
+    let mut seps = 0;
+    for (i, t) in v.toks.iter().enumerate() {
+        if t.ty != T::MacroSep {
+            continue;
+        }
+        seps += 1;
+        if !cfg!(feature = "macro_sep") {
+            out.push("sep.without-feature".to_string());
+        }
+        if t.start != t.end || t.ch != Ch::DEFAULT {
+            out.push("sep.not-zero-width-default".to_string());
+        }
+        match v.toks.get(i + 1) {
+            Some(n) if n.ty == T::MacroLabel || spaces::is_macro_stat_kw(n.ty) => {
+                if n.start != t.start {
+                    out.push("sep.not-adjacent".to_string());
+                }
+            }
+            Some(n) => out.push(format!("sep.before:{:?}", n.ty)),
+            None => out.push("sep.last".to_string()),
+        }
+        match v.toks[..i].iter().rev().find(|p| p.ch == Ch::DEFAULT) {
+            None => out.push("sep.first-default-token".to_string()),
+            Some(p) => {
+                if matches!(p.ty, T::SEMI | T::MacroLabel | T::KwmThen | T::KwmElse | T::MacroSep) {
+                    out.push(format!("sep.after:{:?}", p.ty));
+                }
+            }
+        }
+    }
+    Some((out, seps, cfg_hash(&r)))
 }
 
 /// single-input replay for any property; returns failed clauses
@@ -957,6 +1033,7 @@ pub fn replay(prop: &str, input: &str) -> Option<Vec<String>> {
         "C08" => crate::numref::check(input),
         "C11" => crate::ref11::check(input),
         "C12" | "C13" | "C14" => crate::grammar::replay(prop, input),
+        "C18" => c18_placement(input).map(|x| x.0),
         _ => check_one(prop, input, None).map(|x| x.0),
     }
 }
